@@ -317,6 +317,40 @@ class Run:
         return 1 if violations else 0
 
 
+OV_CLASS = {'Read': 1, 'Write': 2, 'Cmp': 3, 'Fmt': 4, 'Other': 0}
+
+
+def override_cert(run: Run, classes):
+    """T1 override inventory (Cert/Ov<Class>.lean): which provided trait methods each impl of the crate overrides.  One kernel-checked
+    theorem per class; a class that no longer checks is a breakage of the tie (the models hard-code the dispatch structure) whose detail
+    lists the rows that changed."""
+    sys.path.insert(0, os.path.dirname(os.path.abspath(__file__)))
+    import extract as ex
+    for cls in classes:
+        mod = f'BytesVerif.Cert.Ov{cls}'
+        thm = f'BytesVerif.Cert.Ov{cls}.override_inventory_{cls.lower()}'
+        res = lake_build([mod])
+        if res[mod][0]:
+            ok, found, problems = audit_axioms([mod], [thm], f'{run.pid}_ov{cls}')
+            run.obligation(thm, ok, '; '.join(problems))
+            run.axioms[thm] = found.get(thm)
+            if not ok:
+                run.breakage(f'axiom audit of {mod}', '\n'.join(problems))
+            continue
+        run.obligation(thm, False, 'module does not build')
+        try:
+            _text, info = ex.extract_overrides()
+            now = [' | '.join(r) for r in info['rows'] if ex.override_class(r) == OV_CLASS[cls]]
+            exp = [m.group(2).encode().decode('unicode_escape') for m in
+                   re.finditer(r'^  \((\d+), \d+, "(.*)"\),?$', open(os.path.join(LEAN, 'BytesVerif/Model/Sites.lean')).read(), re.M)
+                   if int(m.group(1)) == OV_CLASS[cls]]
+            detail = '\n'.join(['new or changed impl: ' + r for r in now if r not in exp] + ['missing impl: ' + r for r in exp if r not in now])
+        except Exception as e:      # the diff is only an explanation
+            detail = f'(diff unavailable: {e})'
+        run.breakage(f'override inventory {mod} no longer checks: the set of trait impls / overridden methods differs from the one the models '
+                     f'were written from', detail or 'order of impls changed')
+
+
 def standard_lean_phase(run: Run, props_mod, cert_mod=None, extra_mods=()):
     """Build Props/<id> (+ Cert/<id>) and audit axioms.  Records one obligation per theorem.
     Returns (props_ok, cert_ok)."""
